@@ -80,7 +80,11 @@ FileChecksum FileChecksum::getChecksumForPath(const std::string& path) {
     if (hasher.readAndDigest()) {
       hasher.copy(result.bytes);
     } else {
+      // The file exists but its contents could not be read. Never report the
+      // all-zero checksum here: together with a zero size it would make the
+      // record of an existing file compare equal to that of a missing one.
       memset(result.bytes, 0, sizeof(result.bytes));
+      result.bytes[0] = 2;
     }
   }
 
